@@ -855,7 +855,22 @@ func (m *Model) fnCount() int { return len(m.regs) + len(m.decs) }
 // scope) consumes a key this very decorator decorates. No assignment of values satisfies C12 for such a
 // program, and what dig does with it depends on the evaluation order (DESIGN 10.1).
 func (m *Model) decoratorMediatedCycle(role map[int]interface{}) bool {
+	return len(m.decoratorsInMediatedCycle(role)) > 0
+}
+
+// decoratorsInMediatedCycle: the function ids of the decorators that lie on a decorator-mediated cycle.
+func (m *Model) decoratorsInMediatedCycle(role map[int]interface{}) map[int]bool {
+	out := map[int]bool{}
 	for _, d := range m.decs {
+		if m.decoratorInMediatedCycle(d, role) {
+			out[d.F.ID] = true
+		}
+	}
+	return out
+}
+
+func (m *Model) decoratorInMediatedCycle(d *Dec, role map[int]interface{}) bool {
+	{
 		for fid := range m.may(decNode(d)) {
 			var n node
 			switch x := role[fid].(type) {
